@@ -233,6 +233,14 @@ def main():
             ok = conf is not None and conf['digest'] == m['result']['digest'] and \
                 any((v['property'], v['clause']) == key[:2] for v in conf['violations'])
             if not ok:
+                # The violation may depend on state the library kept from earlier runs executed by the same
+                # worker process.  Re-create that worker's session (its run indices are a pure function of
+                # seed, property and worker count), minimise over the list of runs, and confirm that.
+                sess = session_replay(prop, a.tier, seed, i, nproc, key, spec, work, env, rows[i])
+                if sess is not None:
+                    path, mv, m = sess
+                    ok = True
+            if not ok:
                 problems.append('violation %s of run %d did not reproduce from its replay file %s'
                                 % (key[:2], i, path))
                 continue
@@ -288,6 +296,36 @@ def main():
     finally:
         shutil.rmtree(work, ignore_errors=True)
     return rc
+
+
+def session_replay(prop, tier, seed, i, nproc, key, spec, work, env, row):
+    engine = registry.engine_module(spec['engine'])
+    w = i % nproc
+    idx = list(range(w, i + 1, nproc))
+    progs = [engine.gen_program(core.rng_for(seed, prop, j), prop, tier, j) for j in idx]
+    program = {'engine': spec['engine'], 'session': True, 'ops': progs, 'session_runs': idx}
+    cand = os.path.join(work, 'sess.json')
+    with open(cand, 'w') as f:
+        f.write(core.dumps({'property': prop, 'program': program, 'target': list(key)}))
+    m, err = run_sub('minimise', cand, os.path.join(work, 'sessmin.jsonl'), env, timeout=900,
+                     extra=['--max-s', 600, '--max-exec', 60])
+    if m is None:
+        return None
+    mv = [v for v in m['result']['violations'] if (v['property'], v['clause']) == key[:2]]
+    if not mv:
+        return None
+    tag = hashlib.sha256(core.dumps(m['program']).encode()).hexdigest()[:8]
+    path = os.path.join(core.VERIF_DIR, 'replays', '%s-%s-s%d-r%d-session-%s.json' % (prop, key[1].replace('/', '_'), seed, i, tag))
+    with open(path, 'w') as f:
+        f.write(core.dumps({'property': prop, 'seed': seed, 'run': i, 'tier': tier, 'violation': mv[0],
+                            'event_digest': m['result']['digest'], 'program': m['program'],
+                            'original_ops': len(progs), 'minimiser_executions': m['executions'],
+                            'note': 'session replay: the listed runs are executed one after the other in one process; only the last one is judged',
+                            'how_to_replay': './check %s --replay %s' % (prop, path)}, indent=1))
+    conf, err = run_sub('replay', path, os.path.join(work, 'sessconf.jsonl'), env, timeout=spec['watchdog_s'] * 3 + 900)
+    ok = conf is not None and conf['digest'] == m['result']['digest'] and \
+        any((v['property'], v['clause']) == key[:2] for v in conf['violations'])
+    return (path, mv, m) if ok else None
 
 
 def merge(dst, src):
